@@ -338,7 +338,21 @@ def run(R):
         R.saw(cr)
         fm = cr.calls(pat='Status::from_header_map')
         R.check(len(fm) == 1 and mentions_call(cr.origin(fm[0][1]['args'][0]), name='headers'), 'C02.R6', 'trailers-only-status-read', site(cr), 'Status::from_header_map(response.headers())')
-        errs = [(bb, i, ops) for bb, i, p, a, ops in mirlib.aggregates(cr, 'result::Result', 'Err') if p['l'] == 0]
+        # Err(..) written to the return place, or built by a (spliced) classifying helper and handed on with `?`
+        def reaches_return(l_, depth=0):
+            if l_ == 0 or any(t_.get('name') == 'branch' and any((a_.get('mv') or a_.get('cp') or {}).get('l') == l_ for a_ in t_['args']) for bb_, t_ in cr.calls(name='branch')):
+                return True
+            if depth > 3:
+                return False
+            # moved on (the return slot of a spliced helper is moved into the caller's local)
+            for bb_ in cr.live_blocks():
+                for st_ in cr.blocks[bb_]['stmts']:
+                    u_ = (st_.get('rv') or {}).get('use') if isinstance(st_.get('rv'), dict) else None
+                    src_ = (u_.get('mv') or u_.get('cp')) if isinstance(u_, dict) else None
+                    if src_ and src_.get('l') == l_ and not src_.get('pr') and st_.get('p') and not st_['p'].get('pr') and reaches_return(st_['p']['l'], depth + 1):
+                        return True
+            return False
+        errs = [(bb, i, ops) for bb, i, p, a, ops in mirlib.aggregates(cr, 'result::Result', 'Err') if reaches_return(p['l'])]
         oke = [x for x in errs if term_contains(cr.origin(x[2][0]), lambda y: is_call(y, pat='Status::from_header_map'))]
         R.check(len(oke) == 1, 'C02.R6', 'non-ok-status-returned', site(cr), 'Err(status from headers) returns: %d' % len(oke))
         for bb, i, ops in oke:
